@@ -37,6 +37,10 @@ def cases(tier, seed, prep=None):
     # receiving applications that pause and later resume their subchannel (also while no connection exists)
     for i in range(80 if q else 2400):
         out.append({"kind": "random", "seed": base + 80000 + i, "pauses": [2, 4, 8][i % 3], "nkills": [None, None, 8][i % 3]})
+    # sending applications with a streaming producer that says something when it is told to pause (a "stalled" status
+    # line, a flush marker): a write made from inside pauseProducing(), i.e. from inside the write that filled the buffer
+    for i in range(60 if q else 1800):
+        out.append({"kind": "random", "seed": base + 95000 + i, "pause_writer": True, "nkills": [4, 6, 8][i % 3]})
     bases = range(3) if q else range(20)
     for b in bases:
         for k in range(60, 420, 6 if q else 1):
@@ -134,6 +138,40 @@ def run_case(spec):
             world.reactor.blackhole(link, direction=(d if how == "lose-data" else 1 - d))
             sch.faults.append((world.step + rng.randint(3, 30), lambda: world.reactor.cut(link), "cut after blackhole"))
             sch.faults.sort(key=lambda f: f[0])
+    pw = {"registered": 0, "writes": 0}
+    if spec.get("pause_writer"):
+        from zope.interface import implementer
+        from twisted.internet.interfaces import IPushProducer
+
+        @implementer(IPushProducer)
+        class PauseWriter:
+            def __init__(self, p_):
+                self.p = p_
+                self.budget = rng.randint(1, 6)
+
+            def pauseProducing(self):
+                if self.budget > 0 and drv.is_open(self.p):
+                    self.budget -= 1
+                    pw["writes"] += 1
+                    drv.write(self.p, b"%s:stalled:%d" % (self.p.name.encode(), pw["writes"]))
+
+            def resumeProducing(self):
+                pass
+
+            def stopProducing(self):
+                pass
+
+        def pw_hook():
+            for side_ in "AB":
+                for p_ in drv.protos(side_):
+                    if drv.is_open(p_) and not getattr(p_, "pause_writer", None) and getattr(p_, "transport", None) is not None:
+                        p_.pause_writer = PauseWriter(p_)
+                        try:
+                            p_.transport.registerProducer(p_.pause_writer, True)
+                            pw["registered"] += 1
+                        except Exception as e:
+                            world.escapes.append((world.step, "app", "registerProducer", type(e).__name__, repr(e)[:200], ""))
+        sch.hook = pw_hook
     bad_name = {"tried": 0, "outcome": None}
     if spec["kind"] == "random" and spec["seed"] % 5 == 0:
         # an application bug on one side: connect() with a subprotocol name that is a str but cannot be encoded (a lone
@@ -215,7 +253,8 @@ def run_case(spec):
     viol = []
     counters = {"kills": kills["done"], "kills_skipped": kills["skipped"], "opens": len(drv.opens),
                 "writes_delivered": 0, "complete": int(complete), "bystander_pairs": int(by is not None), "twin_cases": int(twins),
-                "app_pauses": drv.pauses_done, "writes_in_offline_bursts": kills.get("burst_writes", 0), "unencodable_names_tried": bad_name["tried"], "false_factories": drv.falsy_factories, "calls_from_inside_protocol_callbacks": drv.reactions_done, "app_resumes_while_offline": drv.resumes_offline}
+                "app_pauses": drv.pauses_done, "writes_in_offline_bursts": kills.get("burst_writes", 0), "unencodable_names_tried": bad_name["tried"], "false_factories": drv.falsy_factories, "calls_from_inside_protocol_callbacks": drv.reactions_done, "app_resumes_while_offline": drv.resumes_offline,
+                "writes_from_inside_pauseProducing": pw["writes"], "app_pauses_from_inside_dataReceived": getattr(drv, "pauses_in_data", 0)}
 
     def wit(extra=None):
         w = {"spec": spec, "roles": {n: str(dp.role(n)) for n in "AB"}, "states": {n: dp.mstate(n) for n in "AB"},
